@@ -1,19 +1,22 @@
 #!/usr/bin/env bash
-# tools/fuzz_campaign.sh <ID> <target> <tier> <seed> <runs_quick> <runs_thorough> <max_len>
-# Bounded libFuzzer campaign (engine E6). Fresh working corpus copied from /verif/corpus/<target>.
+# tools/fuzz_campaign.sh <ID> <target> <tier> <seed> <runs_quick> <runs_thorough> <max_len> [corpus-name]
+# Bounded libFuzzer campaign (engine E6). Fresh working corpus copied from /verif/corpus/<corpus-name> (default: <target>;
+# the four channel targets share corpus/chan_history, the two file targets corpus/file_history).
 # A crash = the in-target oracle failed: the artifact is converted into a replay file for the check binary's
 # `fuzz-artifact` generator and reported as a VIOLATION (exit 1). Build problems / missing toolchain: exit 2.
 set -u
-ID="$1"; TARGET="$2"; TIER="$3"; SEED="$4"; RQ="$5"; RT="$6"; MAXLEN="$7"
+ID="$1"; TARGET="$2"; TIER="$3"; SEED="$4"; RQ="$5"; RT="$6"; MAXLEN="$7"; CORPUS="${8:-$2}"
 V="${VERIF_DIR:-/verif}"
 F="$V/fuzzing"
 RUNS="$RQ"; [ "$TIER" = thorough ] && RUNS="$RT"
 WORK="$F/fuzz/corpus/$TARGET"; ART="$F/fuzz/artifacts/$TARGET"
 rm -rf "$WORK" "$ART"; mkdir -p "$WORK" "$ART"
-cp -r "$V/corpus/$TARGET/." "$WORK/" 2>/dev/null
+cp -r "$V/corpus/$CORPUS/." "$WORK/" 2>/dev/null
 LOG="$F/fuzz/$TARGET.log"
 cd "$F" || exit 2
 export CARGO_NET_OFFLINE=true VERIF_DIR="$V"
+# cargo-fuzz builds with its own RUSTFLAGS (the harness .cargo/config.toml is not consulted): pass the hook guard explicitly
+export RUSTFLAGS="--cfg emit_rs_emit_verif ${RUSTFLAGS:-}"
 if ! cargo +nightly fuzz build "$TARGET" >"$LOG.build" 2>&1; then
   tail -20 "$LOG.build" >&2; echo "INCONCLUSIVE: fuzz build failed for $TARGET" >&2; exit 2
 fi
